@@ -34,15 +34,25 @@ NoSweep == [on |-> FALSE, vname |-> "", vals |-> <<>>, ints |-> FALSE, ctx2 |-> 
 Spellings == 0..3
 
 (******************************* meaning **********************************)
-RECURSIVE ExprNorm(_)
-\* expression trees: <<"t">>, <<"c", n>>, <<op, a, b>>; + and * commutative
-Rank(e) == IF e[1] = "t" THEN 0 ELSE IF e[1] = "c" THEN 1 + e[2] ELSE 100
-\* <<"abs", x>> / <<"neg", x>>: a call / a unary minus around a sub-expression
+RECURSIVE ExprNorm(_), Flat(_), LexLess(_, _)
+\* expression trees: <<"t">>, <<"c", n>>, <<op, a, b>>, <<"abs", x>> / <<"neg", x>> (a call / a unary minus around x);
+\* + and * are commutative: the operands of every + / * node are put in a fixed total order (lexicographic order of the
+\* pre-order serialisation of the already normalised operands)
 IsWrap(e) == Len(e) = 2 /\ e[1] \in {"abs", "neg"}
+Opc(op) == CASE op = "+" -> 10 [] op = "*" -> 11 [] op = "-" -> 12 [] op = "abs" -> 13 [] op = "neg" -> 14 [] OTHER -> 15
+Flat(e) == IF e[1] = "t" THEN <<1>>
+           ELSE IF e[1] = "c" THEN <<2, e[2]>>
+           ELSE IF IsWrap(e) THEN <<Opc(e[1])>> \o Flat(e[2])
+           ELSE <<Opc(e[1])>> \o Flat(e[2]) \o Flat(e[3])
+LexLess(x, y) == IF x = <<>> THEN y # <<>>
+                 ELSE IF y = <<>> THEN FALSE
+                 ELSE IF Head(x) < Head(y) THEN TRUE
+                 ELSE IF Head(x) > Head(y) THEN FALSE
+                 ELSE LexLess(Tail(x), Tail(y))
 ExprNorm(e) == IF IsWrap(e) THEN <<e[1], ExprNorm(e[2])>>
                ELSE IF Len(e) < 3 THEN e
                ELSE LET a == ExprNorm(e[2]) b == ExprNorm(e[3])
-                    IN IF e[1] \in {"+", "*"} /\ Rank(b) < Rank(a) THEN <<e[1], b, a>> ELSE <<e[1], a, b>>
+                    IN IF e[1] \in {"+", "*"} /\ LexLess(Flat(b), Flat(a)) THEN <<e[1], b, a>> ELSE <<e[1], a, b>>
 
 \* (an entry's `al` field -- written as a YAML alias of entry al of the same node -- is not part of the meaning)
 EntryMeaning(en) == [k |-> en.k, v |-> en.v, str |-> en.str, sub |-> {[k |-> s.k, v |-> s.v] : s \in {en.sub[i] : i \in 1..Len(en.sub)}}]
@@ -76,10 +86,10 @@ CommuteExpr == \E i \in 1..Len(cfg) :
                   /\ cfg[i].sweep.expr[2] # cfg[i].sweep.expr[3]
                   /\ SetNode(i, [cfg[i] EXCEPT !.sweep.expr = <<@[1], @[3], @[2]>>]) /\ last' = "CommuteExpr"
 \* the same one level down, under ANY root operator (also a non-commutative one)
-CommuteInner == \E i \in 1..Len(cfg) :
-                  /\ cfg[i].sweep.on /\ Len(cfg[i].sweep.expr) = 3 /\ Len(cfg[i].sweep.expr[2]) = 3
-                  /\ cfg[i].sweep.expr[2][1] \in {"+", "*"} /\ cfg[i].sweep.expr[2][2] # cfg[i].sweep.expr[2][3]
-                  /\ SetNode(i, [cfg[i] EXCEPT !.sweep.expr[2] = <<@[1], @[3], @[2]>>]) /\ last' = "CommuteInner"
+CommuteInner == \E i \in 1..Len(cfg) : \E side \in {2, 3} :       \* in the left or in the right operand of the root
+                  /\ cfg[i].sweep.on /\ Len(cfg[i].sweep.expr) = 3 /\ Len(cfg[i].sweep.expr[side]) = 3
+                  /\ cfg[i].sweep.expr[side][1] \in {"+", "*"} /\ cfg[i].sweep.expr[side][2] # cfg[i].sweep.expr[side][3]
+                  /\ SetNode(i, [cfg[i] EXCEPT !.sweep.expr[side] = <<@[1], @[3], @[2]>>]) /\ last' = "CommuteInner"
 \* ... and below a call or a unary minus (any non-arithmetic construct around the chain)
 CommuteUnder == \E i \in 1..Len(cfg) :
                   /\ cfg[i].sweep.on /\ IsWrap(cfg[i].sweep.expr) /\ Len(cfg[i].sweep.expr[2]) = 3
